@@ -35,6 +35,16 @@ class FpG(Fp):
         self.name = "q:%d:1" % p
 
 
+class FpT(Fp):
+    """prime field run through another ring type of the implementation: tag m64 = Modular<int64_t>, mu64 =
+    Modular<uint64_t,__uint128_t>, mI = Modular<Integer>, md = Modular<double> (python arithmetic is the same)"""
+
+    def __init__(self, p, tag):
+        Fp.__init__(self, p)
+        self.tag = tag
+        self.name = "%s:%d" % (tag, p)
+
+
 class Fq(object):
     """GF(p^k) = F_p[t]/(m); an element is the integer whose base-p digits are its coefficients (what
     GFqDom::init(int64) / convert(int64) use); m is given the same way (GFqDom::irreducible())."""
@@ -190,17 +200,103 @@ def prime_factors(n):
     return _pf[n]
 
 
+def is_prime_int(n):
+    """Miller-Rabin with the first 20 primes as bases (deterministic far beyond the sizes used here)"""
+    if n < 2:
+        return False
+    small = (2, 3, 5, 7, 11, 13, 17, 19, 23, 29, 31, 37, 41, 43, 47, 53, 59, 61, 67, 71)
+    for q in small:
+        if n % q == 0:
+            return n == q
+    d, r = n - 1, 0
+    while d % 2 == 0:
+        d //= 2
+        r += 1
+    for a in small:
+        x = pow(a, d, n)
+        if x in (1, n - 1):
+            continue
+        for _ in range(r - 1):
+            x = x * x % n
+            if x == n - 1:
+                break
+        else:
+            return False
+    return True
+
+
+def _rho(n):
+    """Pollard-Brent, deterministic (c = 1, 2, ...): a proper factor of the odd composite n"""
+    import math
+    c = 1
+    while True:
+        y, r, q, g = 2, 1, 1, 1
+        x = ys = y
+        while g == 1:
+            x = y
+            for _ in range(r):
+                y = (y * y + c) % n
+            k = 0
+            while k < r and g == 1:
+                ys = y
+                for _ in range(min(128, r - k)):
+                    y = (y * y + c) % n
+                    q = q * abs(x - y) % n
+                g = math.gcd(q, n)
+                k += 128
+            r *= 2
+        if g == n:
+            g = 1
+            while g == 1:
+                ys = (ys * ys + c) % n
+                g = math.gcd(abs(x - ys), n)
+        if g != n:
+            return g
+        c += 1
+
+
 def _prime_factors(n):
-    r, d = [], 2
-    while d * d <= n:
+    """sorted list of the distinct prime divisors (trial division below 2000, then Pollard-Brent)"""
+    r, d = set(), 2
+    while d < 2000 and d * d <= n:
         if n % d == 0:
-            r.append(d)
+            r.add(d)
             while n % d == 0:
                 n //= d
         d += 1
-    if n > 1:
-        r.append(n)
-    return r
+    st = [n] if n > 1 else []
+    while st:
+        m = st.pop()
+        if m < 4000000 or is_prime_int(m):
+            r.add(m)
+            continue
+        g = _rho(m)
+        st += [g, m // g]
+    return sorted(r)
+
+
+def prev_prime(n):
+    n -= 1
+    while not is_prime_int(n):
+        n -= 1
+    return n
+
+
+def next_prime(n):
+    while not is_prime_int(n):
+        n += 1
+    return n
+
+
+def iroot(n, k):
+    lo, hi = 0, 1 << (n.bit_length() // k + 1)
+    while lo < hi:
+        m = (lo + hi + 1) // 2
+        if m ** k <= n:
+            lo = m
+        else:
+            hi = m - 1
+    return lo
 
 
 BRUTE_LIMIT = 4000
@@ -388,7 +484,8 @@ MODEL_OP = {"irr": "irr", "irr.mod": "irr", "irr2": "irr2", "irr2.mod": "irr2", 
             "ddf": "ddf", "ddf.mod": "ddf", "ddf.list": "ddf", "split": "split", "split.mod": "split",
             "split1": "split1", "split1.mod": "split1", "cz": "cz", "cz.mod": "cz", "cz.factor": "cz",
             "isproot": "isproot", "order": "order", "randirr": "randirr", "creux": "creux", "ixe": "ixe", "ixe2": "ixe2",
-            "giveproot": "giveproot", "giverandproot": "giverandproot", "randproot": "randproot"}
+            "giveproot": "giveproot", "giverandproot": "giverandproot", "randproot": "randproot",
+            "diff": "diff", "diff.in": "diff", "powmod": "powmod", "powmod.in": "powmod", "gcd": "gcd"}
 SITE = {"irr": "Poly1FactorDom::is_irreducible", "irr2": "Poly1FactorDom::is_irreducible2", "sqrfree": "Poly1Dom::sqrfree",
         "ddf": "Poly1FactorDom::DistinctDegreeFactor", "split": "Poly1FactorDom::SplitFactor(container)",
         "split1": "Poly1FactorDom::SplitFactor(single)", "cz": "Poly1FactorDom::CZfactor",
@@ -396,7 +493,8 @@ SITE = {"irr": "Poly1FactorDom::is_irreducible", "irr2": "Poly1FactorDom::is_irr
         "randirr": "Poly1FactorDom::random_irreducible", "creux": "Poly1FactorDom::creux_random_irreducible",
         "ixe": "Poly1FactorDom::ixe_irreducible", "ixe2": "Poly1FactorDom::ixe_irreducible2",
         "giveproot": "Poly1FactorDom::give_prim_root", "giverandproot": "Poly1FactorDom::give_random_prim_root",
-        "randproot": "Poly1FactorDom::random_prim_root", "cyclo": "Poly1Dom::cyclotomic", "pcomp": "Poly1Dom::power_compose"}
+        "randproot": "Poly1FactorDom::random_prim_root", "cyclo": "Poly1Dom::cyclotomic", "pcomp": "Poly1Dom::power_compose",
+        "diff": "Poly1Dom::diff", "powmod": "Poly1Dom::powmod", "gcd": "Poly1Dom::gcd", "fieldinfo": "field parameters"}
 
 
 class Case(object):
@@ -425,7 +523,7 @@ def fac_class(F, P, facs):
     return "multiplicities<char"
 
 
-def gen_cases(rng, tier, fields, gfq, bigG=()):
+def gen_cases(rng, tier, fields, gfq, bigG=(), bnd=()):
     """returns the list of cases; `fields` = prime fields (model + oracle), `gfq` = extension fields (oracle only)"""
     C = []
     big = tier != "quick"
@@ -659,6 +757,15 @@ def gen_cases(rng, tier, fields, gfq, bigG=()):
             if F.q ** nn <= 10 ** 9:
                 add("ixe", F, stream(rng, 3000), [str(nn)], {"n": nn, "nomodel": True}, "large degree %d" % nn)
 
+    # ---- 7. the helpers every operation shares, driven directly: diff, powmod (exponents on both sides of every word
+    #         limit), gcd -- deterministic inputs (sparse, structured) plus random ones
+    gen_helpers(rng, add, big, fields, gfq)
+    # ---- 8. sparse and structured inputs for every entry point (deterministic)
+    gen_structured(rng, add, big, fields, gfq)
+    # ---- 9. fields whose q, q^n, (q^n-1)/2, (q^n-1)/l land on both sides of 2^31, 2^32, 2^63, 2^64 (2^128), through every
+    #         ring type the implementation is instantiated with (deterministic list, see boundary_fields)
+    gen_boundary(rng, add, big, bnd)
+
     # ---- 6. cyclotomic polynomials and composition with X^b (givpoly1cyclo.inl)
     for F in fields:
         for nn in list(range(1, 31 if not big else 120)):
@@ -669,6 +776,322 @@ def gen_cases(rng, tier, fields, gfq, bigG=()):
             P = rand_poly(rng, F, rng.range(0, 6)); b = rng.range(1, 5)
             add("pcomp", F, [], [P, str(b)], {}, "random")
     return C
+
+
+
+# ------------------------------------------------------------------ deterministic generators (phase 3)
+POW_EXPONENTS = [0, 1, 2, 3, 5, 2 ** 16, 2 ** 31 - 1, 2 ** 31, 2 ** 31 + 1, 2 ** 32 - 1, 2 ** 32, 2 ** 32 + 1, 2 ** 62 + 12345,
+                 2 ** 63 - 1, 2 ** 63, 2 ** 63 + 1, 2 ** 63 + 2 ** 62 + 7, 2 ** 64 - 1, 2 ** 64, 2 ** 64 + 1, 2 ** 64 + 2 ** 63 + 5,
+                 2 ** 65 - 1, 2 ** 65, 2 ** 96 + 3, 2 ** 127 - 1, 2 ** 127, 2 ** 128 - 1, 2 ** 128, 2 ** 128 + 2 ** 64 + 1, 2 ** 192 + 2 ** 64 - 1]
+
+
+def sparse_polys(F, big):
+    """deterministic structured polynomials: zero coefficients below non-zero ones, X^k factors, polynomials in X^2 / X^p,
+    binomials, trinomials, all-ones, alternating"""
+    q, p = F.q, F.p
+    a, b, c = 1, (2 % q) or 1, (q - 1)
+    out = [[], [a], [c], [0, 1], [a, 1], [0, 0, 1], [0, 0, 0, 1]]
+    for n in (2, 3, 4, 5, 6, 7, 8, 9, 12) + ((16, 17, 25) if big else ()):
+        out.append([0] * n + [1])                         # X^n
+        out.append([a] + [0] * (n - 1) + [1])             # X^n + 1
+        out.append([c] + [0] * (n - 1) + [b])             # b X^n - 1
+        out.append([0, a] + [0] * (n - 1) + [1])          # X^(n+1) + X
+        for d in (1, 2, n // 2, n - 1):
+            if 0 < d < n:
+                t = [a] + [0] * (n - 1) + [1]
+                t[d] = b
+                out.append(t)                             # X^n + b X^d + 1
+                out.append([0] * 2 + t)                   # X^2 (X^n + b X^d + 1)
+        out.append([1] * (n + 1))                         # 1 + X + ... + X^n
+        out.append([(a if i % 2 == 0 else 0) for i in range(n + 1)][:n] + [1])      # even part + X^n
+        out.append([(i % q) for i in range(n)] + [1])     # coefficient i at X^i (zero at every multiple of q)
+    for base in ([a, 1], [b, a, 1], [c, 0, a, 1], [a, b, 0, 0, 1]):
+        for e in (2, p, p + 1) if p <= 7 else (2, 3):
+            w = [0] * ((len(base) - 1) * e + 1)
+            for i, x in enumerate(base):
+                w[i * e] = x
+            out.append(w)                                 # base(X^e): a polynomial in X^e (derivative zero when e = p)
+    seen, res = set(), []
+    for P in out:
+        t = tuple(norm(P))
+        if t not in seen and len(t) <= 40:
+            seen.add(t)
+            res.append(list(t))
+    return res
+
+
+def gen_helpers(rng, add, big, fields, gfq):
+    for F in fields + gfq:
+        sp = sparse_polys(F, big)
+        for i, P in enumerate(sp):
+            add(("diff", "diff.in")[i % 2], F, [], [P], {}, "structured")
+        if F.q <= 5:                                       # every polynomial of degree <= 4 / 3
+            for d in range(0, 5 if F.q <= 3 else 4):
+                for M in monics(F, d):
+                    add("diff", F, [], [M], {}, "exhaustive deg %d" % d)
+        for i in range(10 if not big else 60):
+            P = rand_poly(rng, F, rng.range(0, 12))
+            for j in range(len(P) - 1):                    # knock out coefficients: zero below non-zero
+                if rng.chance(1, 2):
+                    P[j] = 0
+            add(("diff", "diff.in")[i % 2], F, [], [P], {}, "random sparse")
+        # powmod: every boundary exponent, three moduli, bases below / above the modulus degree, zero base
+        mods = [IRR.get(rng, F, 2), rand_poly(rng, F, 3, monic=False), [1, 0, 0, 1, 1] if F.q == 2 else [F.q - 1, 0, 0, 0, 1]]
+        for i, e in enumerate(POW_EXPONENTS + [rng.bits(rng.range(1, 200)) for _ in range(6 if not big else 40)]):
+            U = mods[i % 3]
+            B = [[0, 1], [1, 1], rand_poly(rng, F, rng.range(0, 6)), U, []][i % 5]
+            add(("powmod", "powmod", "powmod.in")[i % 3], F, [], [B, str(e), U], {}, "exponent of %d bits" % e.bit_length())
+        for i in range(len(sp)):
+            A, B = sp[i], sp[(7 * i + 3) % len(sp)]
+            if A or B:
+                add("gcd", F, [], [A, B], {}, "structured")
+        for i in range(8 if not big else 60):
+            G = rand_poly(rng, F, rng.range(0, 4))
+            add("gcd", F, [], [pmul(F, G, rand_poly(rng, F, rng.range(0, 5))), pmul(F, G, rand_poly(rng, F, rng.range(0, 5)))], {}, "common factor")
+
+
+def some_irr(rng, F, d, n):
+    """up to n distinct monic irreducibles of degree d (the first ones when the field is small enough to list them)"""
+    if F.q ** d <= 3000:
+        return IRR.all_small(F, d)[:n]
+    out = []
+    for _ in range(4 * n):
+        f = IRR.get(rng, F, d)
+        if f not in out:
+            out.append(f)
+        if len(out) == n:
+            break
+    return out
+
+
+def gen_structured(rng, add, big, fields, gfq):
+    """deterministic structured inputs for sqrfree / CZfactor / DDF / SplitFactor / the irreducibility tests / order: the
+    factorisation of each input is known from its construction"""
+    for F in fields + gfq:
+        q, p = F.q, F.p
+        if q > 200:
+            continue
+        X, X1 = [0, 1], [1, 1]
+        lin = [[F.neg(a), 1] for a in range(min(q, 12))]       # X - a
+        irr2 = some_irr(rng, F, 2, 3)
+        irr3 = some_irr(rng, F, 3, 2) if q <= 13 else []
+        sparse_irr = [f for d in (2, 3, 4, 5) if q ** d <= 3000 for f in IRR.all_small(F, d) if sum(1 for x in f if x) <= 3][:4]
+        cases = []                                          # (facs, class)
+        # X^k times something, k = 1..4 (the derivative has a zero low part)
+        for k in (1, 2, 3, 4):
+            cases.append(([(X, k)], "X^%d" % k))
+            cases.append(([(X, k), (X1, 1)], "X^%d (X+1)" % k))
+            if irr2:
+                cases.append(([(X, k), (irr2[0], 2 if p > 2 else 1)], "X^%d times a square" % k))
+        # every multiplicity pattern below the characteristic on up to three distinct linear factors
+        mm = [e for e in range(1, min(p, 6))]
+        pats = [(e,) for e in mm] + [(e1, e2) for e1 in mm for e2 in mm] + \
+               ([(e1, e2, e3) for e1 in mm for e2 in mm for e3 in mm] if (p <= 5 or big) else [(1, 2, 3), (3, 2, 1), (2, 2, 1), (1, 1, 2)][:4 if p > 3 else 0])
+        for pat in pats:
+            if len(pat) <= len(lin) and sum(pat) <= 14:
+                cases.append(([(lin[i + 1 if q > len(pat) else i], e) for i, e in enumerate(pat)], "multiplicity pattern %s" % (pat,)))
+        # sparse irreducibles with every multiplicity below the characteristic; two sparse irreducibles squared
+        for f in sparse_irr:
+            for e in mm[:4]:
+                if (len(f) - 1) * e <= 16:
+                    cases.append(([(f, e)], "sparse irreducible ^%d" % e))
+        if len(sparse_irr) >= 2 and p > 2:
+            cases.append(([(sparse_irr[0], 2), (sparse_irr[1], 1)], "sparse^2 * sparse"))
+            cases.append(([(sparse_irr[0], 2), (sparse_irr[1], 2), (X, 1)], "X sparse^2 sparse^2"))
+        # products of many distinct linear factors: all of them (X^q - X), all non-zero (X^(q-1) - 1), half
+        if q <= 13:
+            cases.append(([(f, 1) for f in lin[:q]], "all linear factors (X^q - X)"))
+            cases.append(([(f, 1) for f in lin[1:q]], "all non-zero roots (X^(q-1) - 1)"))
+        cases.append(([(f, 1) for f in lin[:max(1, min(q, 12) // 2)]], "half of the linear factors"))
+        # degrees at the loop bound of the distinct-degree stage: two factors of degree deg/2; factor of degree (deg+1)/2
+        for d, fs in ((2, irr2), (3, irr3)):
+            if len(fs) >= 2:
+                cases.append(([(fs[0], 1), (fs[1], 1)], "two factors of degree deg/2 = %d" % d))
+                cases.append(([(fs[0], 1), (fs[1], 1), (lin[1 % len(lin)], 1)], "degrees %d+%d+1" % (d, d)))
+                cases.append(([(fs[0], 1), (lin[1 % len(lin)], 1)], "degrees %d+1" % d))
+        # polynomials in X^p (p-th powers over the prime field): the recorded defect class, kept under its narrow key
+        for f in ([1, 1], [1, 1, 1] if p != 3 else [2, 1, 1]):
+            w = [0] * ((len(f) - 1) * p + 1)
+            for i, x in enumerate(f):
+                w[i * p] = x
+            if len(w) <= 16 and isinstance(F, Fp):
+                fb = sorted(factor_brute(F, w).items()) if q ** ((len(w) - 1) // 2) <= 20000 else None
+                if fb:
+                    cases.append(([(list(g), e) for g, e in fb], "polynomial in X^p"))
+        for n, (facs, kl) in enumerate(cases):
+            mg = {}
+            for f, e in facs:
+                mg[tuple(f)] = mg.get(tuple(f), 0) + e
+            facs = [(list(f), e) for f, e in sorted(mg.items())]
+            P = product(F, facs)
+            if len(P) - 1 > 24 or len(P) < 2:
+                continue
+            if n % 4 == 3 and q > 2:
+                P = pscale(F, 2, P)
+            if F.p == 2 and any(q ** (len(f) - 1) > 64 for f, e in facs):
+                continue
+            kc = fac_class(F, P, facs)
+            meta = {"facs": facs}
+            add("sqrfree", F, [], [P], meta, kc + "; structured: " + kl)
+            m2 = dict(meta)
+            m2["isolate"] = False
+            add(("cz", "cz.mod", "cz.factor")[n % 3], F, stream(rng, 60 + 40 * len(P), F), [P], m2, kc + "; structured: " + kl)
+            add(("irr", "irr.mod", "irr2", "irr2.mod")[n % 4], F, [], [P], {}, "structured: " + kl)
+            if all(e == 1 for f, e in facs):
+                add(("ddf", "ddf.mod", "ddf.list")[n % 3], F, stream(rng, 500, F), [P], meta, "structured: " + kl)
+                ds = set(len(f) - 1 for f, e in facs)
+                if len(ds) == 1:
+                    d = ds.pop()
+                    m3 = {"facs": facs, "d": d}
+                    add(("split", "split.mod")[n % 2], F, stream(rng, 500, F), [P, str(d)], m3, "structured: " + kl)
+                    add(("split1", "split1.mod")[n % 2], F, stream(rng, 500, F), [P, str(d)], m3, "structured: " + kl)
+        # sparse moduli / sparse elements for order and is_prim_root; every binomial and trinomial for the two tests
+        for n in (2, 3, 4, 5, 6) if q <= 7 else (2, 3):
+            if q ** n > 40000:
+                continue
+            for a0 in range(q):
+                B = [a0] + [0] * (n - 1) + [1]
+                add(("irr", "irr2", "irr.mod", "irr2.mod")[(a0 + n) % 4], F, [], [B], {}, "binomial X^%d + a" % n)
+                for d in range(1, n):
+                    for b0 in range(1, min(q, 4)):
+                        T3 = list(B)
+                        T3[d] = b0
+                        add(("irr", "irr2")[(a0 + d + b0) % 2], F, [], [T3], {}, "trinomial X^%d + b X^%d + a" % (n, d))
+            Ms = [f for f in (IRR.all_small(F, n) if q ** n <= 3000 else []) if sum(1 for x in f if x) <= 3][:2]
+            for M in Ms:
+                for A in ([0, 1], [1, 1], [0, 0, 1], [1, 0, 1], [0] * (n - 1) + [1], [1] + [0] * (n - 1) + [1], [0] * (n + 1) + [1]):
+                    add("order", F, [], [A, M], {}, "sparse modulus, sparse element")
+                    add("isproot", F, [], [A, M], {}, "sparse modulus, sparse element")
+                add("giveproot", F, stream(rng, 300), [M], {}, "sparse modulus")
+
+
+def boundary_fields(big):
+    """(q, k, label): primes q with q^k just below / just above T for T = 2^31, 2^32, 2^63, 2^64 and k = 1, 2, 3 (so that q, q^k,
+    (q^k-1)/2 and the (q^k-1)/l fall on both sides of each word limit), T = 2^128 with k = 1 (multi-limb), and the two fields
+    of the blind change C09-m5 (q^3 and (q^3-1)/2 in [2^63, 2^64))"""
+    out = []
+    for tb in (31, 32, 63, 64, 128):
+        T = 1 << tb
+        for k in (1, 2, 3):
+            if tb == 128 and k > 1:
+                continue
+            r = iroot(T - 1, k)                       # largest r with r^k < T
+            lo, hi = prev_prime(r + 1), next_prime(r + 1)
+            out.append((lo, k, "q^%d just below 2^%d" % (k, tb)))
+            out.append((hi, k, "q^%d just above 2^%d" % (k, tb)))
+    out.append((2300003, 3, "q^3 in [2^63, 2^64)"))
+    out.append((2 ** 127 - 1, 1, "Mersenne prime 2^127 - 1 (two limbs)"))
+    return out
+
+
+def ring_types(q, rot):
+    """ring types of the implementation able to hold the prime q; every field gets Modular<Integer> or the widest word type plus one
+    more type in rotation, so that each type sees each boundary it can reach"""
+    ts = []
+    if q < 2 ** 16:
+        ts += ["", "q"]
+    if q < 94906266:
+        ts.append("md")
+    if q <= 2 ** 32:
+        ts.append("m64")
+    if q < 2 ** 64:
+        ts.append("mu64")
+    ts.append("mI")
+    if len(ts) <= 2:
+        return ts
+    return [ts[-1], ts[rot % (len(ts) - 1)]] if rot >= 0 else ts
+
+
+def mkfield(q, tag):
+    return Fp(q) if tag == "" else (FpG(q) if tag == "q" else FpT(q, tag))
+
+
+def gen_boundary(rng, add, big, bnd):
+    X = [0, 1]
+    for idx, (q, k, label) in enumerate(bnd):
+        N = q ** k - 1
+        pf = prime_factors(N)
+        F0 = Fp(q)
+        M = IRR.get(rng, F0, k)
+        M2 = IRR.get(rng, F0, k)
+        while M2 == M:
+            M2 = IRR.get(rng, F0, k)
+        a, b, c = 3 % q, 5 % q, 7 % q
+        la, lb, lc_ = [q - a, 1], [q - b, 1], [q - c, 1]
+        # a generator of (F_q[X]/M)^*: the first of X+1, X+2, ... (k >= 2) / 2, 3, ... (k = 1) of order N
+        g = None
+        for t in range(1, 400):
+            cand = [t % q, 1] if k >= 2 else [(t + 1) % q]
+            if all(ppowmod(F0, cand, N // l, M) != [1] for l in pf):
+                g = pmod(F0, cand, M)
+                break
+        els = [("X+1", [1, 1]), ("constant 2", [2 % q]), ("constant -1", [q - 1]), ("X", X), ("zero", []), ("one", [1]),
+               ("multiple of the modulus", M), ("random", rand_poly(rng, F0, max(0, k - 1)))]
+        if g is not None:
+            els.append(("generator", g))
+            els.append(("generator squared", ppowmod(F0, g, 2, M)))
+            for l in sorted(set(pf[:3] + pf[-2:])):
+                els.append(("generator^l, l=%d" % l, ppowmod(F0, g, l, M)))
+                els.append(("element of order l=%d" % l, ppowmod(F0, g, N // l, M)))
+            if len(pf) >= 2:
+                els.append(("generator^(l1 l2)", ppowmod(F0, g, pf[0] * pf[-1], M)))
+        for ti, tag in enumerate(ring_types(q, idx if not big else -1)):
+            if tag == "q" and q >= 2 ** 17:
+                continue
+            F = mkfield(q, tag)
+            nm = {"nomodel": (q > 2000 or tag != "")}
+            nmo = {"nomodel": True}       # the model's trial-division prime_factors cannot factor q^k - 1 at these sizes
+            kl = "boundary %s, q=%d" % (label, q)
+            forms = ("irr", "irr.mod", "irr2", "irr2.mod")
+            polys = [("irreducible of degree %d" % k, M), ("two irreducibles of degree %d" % k, pmul(F0, M, M2)),
+                     ("irreducible times linear", pmul(F0, M, la)), ("linear", la)]
+            if k >= 2:
+                polys.append(("%d linear factors" % k, product(F0, [([q - 1 - i, 1], 1) for i in range(k)])))
+            if k <= 2:
+                polys.append(("irreducible of degree %d" % (2 * k), IRR.get(rng, F0, 2 * k)))
+            for j, (pk, P) in enumerate(polys):
+                if j % 3 == 1:
+                    P = pscale(F0, 2 + rng.below(q - 2), P)
+                for f in forms:
+                    add(f, F, [], [P], nm, kl + ": " + pk)
+            # factorisation: (X-3)^2 (X-5) M, square-free (X-3)(X-5) M, M M2 (X-7)
+            facs = [(la, 2), (lb, 1), (M, 1)] if M not in (la, lb) else [(la, 2), (lb, 1)]
+            P = product(F0, facs)
+            mt = dict(nm, facs=facs)
+            add("sqrfree", F, [], [P], mt, "multiplicities<char; " + kl)
+            add(("cz", "cz.mod", "cz.factor")[(idx + ti) % 3], F, stream(rng, 400), [P], mt, "multiplicities<char; " + kl)
+            facs2 = [(f, 1) for f in sorted(set(tuple(x) for x in (la, lb, M, M2)))]
+            facs2 = [(list(f), 1) for f, _ in facs2]
+            P2 = product(F0, facs2)
+            mt2 = dict(nm, facs=facs2)
+            add(("cz.mod", "cz.factor", "cz")[(idx + ti) % 3], F, stream(rng, 400), [pscale(F0, 2, P2)], mt2, "multiplicities<char; " + kl)
+            add(("ddf", "ddf.mod", "ddf.list")[(idx + ti) % 3], F, stream(rng, 400), [P2], mt2, kl)
+            fl = [(la, 1), (lb, 1), (lc_, 1)]
+            m3 = dict(nm, facs=fl, d=1)
+            add(("split", "split.mod")[ti % 2], F, stream(rng, 400), [product(F0, fl), "1"], m3, kl + ": 3 linear factors")
+            add(("split1", "split1.mod")[ti % 2], F, stream(rng, 400), [product(F0, fl), "1"], m3, kl + ": 3 linear factors")
+            if k >= 2:
+                m4 = dict(nm, facs=[(M, 1), (M2, 1)], d=k)
+                add(("split.mod", "split")[ti % 2], F, stream(rng, 400), [pmul(F0, M, M2), str(k)], m4, kl + ": 2 factors of degree %d" % k)
+            # helpers with the field's own exponents
+            for e in (q, q - 1, (q - 1) // 2, q ** k, N, N // 2, N // pf[-1]):
+                add("powmod", F, [], [[1, 1], str(e), pmul(F0, M, la)], nm, kl + ": exponent of %d bits" % e.bit_length())
+            add("diff", F, [], [P], nm, kl)
+            add("gcd", F, [], [P, P2], nm, kl)
+            # orders and primitive roots modulo M
+            for ek, A in els:
+                add("isproot", F, [], [A, M], nmo, kl + ": " + ek)
+                add("order", F, [], [A, M], nmo, kl + ": " + ek)
+            add("giveproot", F, stream(rng, 300), [M], nmo, kl)
+            add("giverandproot", F, stream(rng, 300), [M], nmo, kl)
+            add("randproot", F, stream(rng, 900), [str(k)], dict(nmo, n=k), kl)
+            add("randirr", F, stream(rng, 600), [str(k)], dict(nm, n=k), kl)
+            # the sparse searches enumerate up to q binomials/trinomials when none is irreducible / primitive: only where that is cheap
+            if k <= 2 or q < 4096:
+                add("creux", F, stream(rng, 600), [str(k)], dict(nm, n=k), kl)
+            if k == 1 or q < 4096:
+                add("ixe", F, stream(rng, 600), [str(k)], dict(nmo, n=k), kl)
+                add("ixe2", F, stream(rng, 600), [str(k)], dict(nmo, n=k), kl)
 
 
 # ------------------------------------------------------------------ verdict of one case (implementation vs specification)
@@ -781,6 +1204,19 @@ def verdict(c, payload):
         if order_spec(F, R, P) != F.q ** n - 1:
             return ("order q^n - 1", "returned element is not a primitive root")
         return None
+    if b == "diff":
+        exp = pdiff(F, ppar(c.args[0]))
+        return None if ppar(payload) == exp else (pstr(exp), "not the formal derivative")
+    if b == "powmod":
+        exp = ppowmod(F, ppar(c.args[0]), int(c.args[1]), ppar(c.args[2]))
+        return None if ppar(payload) == exp else (pstr(exp), "not P^e mod U")
+    if b == "gcd":
+        exp = pgcd(F, ppar(c.args[0]), ppar(c.args[1]))
+        got = ppar(payload)
+        return None if got == norm(got) and pmonic(F, got) == exp else (pstr(exp), "not a greatest common divisor (compared after making it monic)")
+    if b == "fieldinfo":
+        exp = "%d %d %d" % (F.q, F.p, F.q)
+        return None if payload == exp else (exp, "residu() / characteristic() / cardinality() are not q, p, q")
     if b == "cyclo":
         exp = cyclotomic_spec_Z(F, c.meta["n"])
         return None if ppar(payload) == exp else (pstr(exp), "not the n-th cyclotomic polynomial")
@@ -851,22 +1287,51 @@ def main(tier, replay=None):
         "extraction: ExtrOcamlBasic only; Z/positive/nat kept as extracted inductives; OCaml 4.13.1; zarith only for text I/O in harness/zio.ml",
         "the Gallina model (coq/C09/Model.v) is hand-written after the C++ control structure; the tie is the correspondence run on every case of a prime field (same stream of generator outputs on both sides)",
         "harness/c09_factor.C (Replay generator substituted for GivRandom through the RandomIterator template parameter), checks/C09.py (generators, python GF(q) arithmetic, divisor search, Rabin test, order by definition)",
-        "g++ -fpermissive for the implementation side: is_irreducible2 / order / ixe_irreducible2 use unqualified names of a dependent base and do not compile otherwise",
+        "g++ -fpermissive for the implementation side as long as Poly1FactorDom::order calls the inherited mod() unqualified (read from the source on every run; frag/C09.fix-5 qualifies it, then the harness is compiled as standard C++)",
         "not proved: that the X^(q^i)-X gcd test characterises irreducibility for every q and degree (finite-field structure theory); claimed only for the exhaustively swept bounds stated in the theorems",
     ]
     chk.assumptions = ["partial: theorems cover the logic (product preservation for every oracle stream, verified checkers) and bounded exhaustive sweeps; the rest is checked per run on the implementation's outputs",
                        "extension fields GF(p^k) (GFqDom) are not modelled in Coq: implementation vs python specification only"]
-    # 1. proofs
-    res = vf.coq_check_props(AREA, timeout=900)
-    chk.proof_result(res, AREA)
+    chk.cov["inconclusive_tooling_timeouts"] = []
+    import time
+    PH = {}
+    T0 = [time.time()]
+
+    def phase(name):
+        PH[name] = round(time.time() - T0[0], 1)
+        T0[0] = time.time()
+    # 1. proofs (a time-out of the Coq build under machine load is a time-out of the tooling: recorded, not a broken proof)
+    res = vf.coq_check_props(AREA, timeout=3000)
+    if not res["ok"] and not res["forbidden"] and "[timeout after" in res["log"]:
+        chk.cov["obligations"] += len(res["theorems"])
+        chk.cov["inconclusive_tooling_timeouts"].append("coq build of coq/C09 did not finish within 3000 s")
+    else:
+        chk.proof_result(res, AREA)
+    phase("coq")
     # 2. executables
     drv, l1 = vf.ocaml_build(AREA) if os.path.exists(os.path.join(vf.coq_dir(AREA), "ocaml", "model.ml")) else (None, "extraction did not run")
     if drv is None:
-        chk.broke("extracted model driver does not build", l1)
-    himpl, l2 = vf.build_harness("c09_factor.C", extra_flags=["-fpermissive", "-DC09_PERMISSIVE", "-Wno-sign-compare"])
+        if "[timeout after" in l1:
+            chk.cov["inconclusive_tooling_timeouts"].append("ocaml build of the extracted model timed out")
+        else:
+            chk.broke("extracted model driver does not build", l1)
+    # which bodies need -fpermissive (unqualified names of a dependent base): read from the CURRENT source on every run.  Once
+    # Poly1FactorDom::order qualifies its call (frag/C09.fix-5) the harness is compiled as standard C++.
+    chk.cov["source_facts"] = source_facts()
+    flags = ["-DC09_PERMISSIVE", "-Wno-sign-compare"]
+    perm = chk.cov["source_facts"].get("order_calls_unqualified_mod", True)
+    himpl, l2 = vf.build_harness("c09_factor.C", extra_flags=(["-fpermissive"] if perm else []) + flags, timeout=2400)
+    if himpl is None and not perm and "[timeout after" not in l2:
+        perm = True
+        himpl, l2 = vf.build_harness("c09_factor.C", extra_flags=["-fpermissive"] + flags, timeout=2400)
+    chk.cov["source_facts"]["harness_compiled_with_fpermissive"] = perm
     if himpl is None:
-        chk.broke("implementation harness does not compile against /repo", l2)
+        if "[timeout after" in l2:
+            chk.cov["inconclusive_tooling_timeouts"].append("g++ did not finish the harness within 2400 s")
+        else:
+            chk.broke("implementation harness does not compile against /repo", l2)
         return chk.finish()
+    phase("build")
     # 3. fields: the extension fields need the modulus GFqDom chose
     fields = [Fp(p) for p in ([2, 3, 5, 7, 13, 101] if tier == "quick" else [2, 3, 5, 7, 11, 13, 31, 101, 65521])]
     gfq = []
@@ -875,45 +1340,70 @@ def main(tier, replay=None):
         m = next(M for M in monics(Fp(p), k) if irreducible_brute(Fp(p), M))
         gfq.append(Fq(p, k, sum(c * p ** i for i, c in enumerate(m))))
     bigG = [(Fp(101), 5), (Fp(101), 10), (Fp(65521), 3), (FpG(65537), 4), (FpG(65537), 5)]
-    cases = gen_cases(rng, tier, fields, gfq, bigG)
+    bnd = boundary_fields(tier != "quick")
+    cases = gen_cases(rng, tier, fields, gfq, bigG, bnd)
+    # field parameters as the implementation reports them (the one-argument call forms pass _domain.residu() as the field size)
+    seenf = {}
+    for c in cases:
+        seenf.setdefault(c.F.name, c.F)
+    for F in seenf.values():
+        cases.append(Case("fieldinfo", F, [], [], {}, "field parameters"))
     if replay:
         rp = json.load(open(replay))
         cases = []
         byname = dict((F.name, F) for F in fields + gfq + [F for F, n in bigG])
         for f in rp.get("failing_inputs", []):
             d = f["case"]
-            if d["field"] in byname:
-                cases.append(Case(d["op"], byname[d["field"]], d["stream"], d["args"], d.get("meta", {}), d.get("class", "")))
-    impl_in = "".join(c.line() + "\n" for c in cases)
-    rc, iout, ierr = run_isolated(himpl, cases, 60 if tier == "quick" else 600)
-    if len(iout) != len(cases):
-        chk.broke("implementation harness failed (rc=%s, %d/%d lines)" % (rc, len(iout), len(cases)), ierr)
-        return chk.finish()
-    # cases that ran out of random draws get a long deterministic continuation of their stream (same on both sides)
+            F = byname.get(d["field"]) or field_of_name(d["field"])
+            if F is not None and isinstance(d.get("stream"), list):
+                cases.append(Case(d["op"], F, d["stream"], d["args"], d.get("meta", {}), d.get("class", "")))
+    phase("generate")
+    wall = 900 if tier == "quick" else 3000
+    cpu = 90 if tier == "quick" else 900
+    iout, inc1 = run_isolated(himpl, cases, wall, cpu)
+    # cases that ran out of random draws get a long deterministic continuation of their stream (same on both sides); when
+    # the second run does not complete (tooling time-out) the case keeps its first stream and stays inconclusive
     retry = [i for i in range(len(cases)) if iout[i].startswith("EXHAUSTED")]
-    for i in retry:
-        r2 = vf.Rng(chk.seed * 1000003 + i)
-        cases[i].stream = list(cases[i].stream) + stream(r2, EXTRA_DRAWS)
     if retry:
-        rc2, out2, err2 = run_isolated(himpl, [cases[i] for i in retry], 120 if tier == "quick" else 600)
-        if len(out2) == len(retry):
-            for i, l in zip(retry, out2):
+        saved = dict((i, cases[i].stream) for i in retry)
+        for i in retry:
+            r2 = vf.Rng(chk.seed * 1000003 + i)
+            cases[i].stream = list(cases[i].stream) + stream(r2, EXTRA_DRAWS)
+        out2, inc2 = run_isolated(himpl, [cases[i] for i in retry], wall, cpu)
+        for i, l in zip(retry, out2):
+            if l.startswith(("TIMEOUT", "SKIPPED")):
+                cases[i].stream = saved[i]
+            else:
                 iout[i] = l
+        inc1 += inc2
+    if inc1:
+        chk.cov["inconclusive_tooling_timeouts"].append("%d implementation runs hit the wall-clock limit of %d s (cases counted as inconclusive)" % (inc1, wall))
     chk.cov["streams_continued"] = len(retry)
+    phase("implementation")
     ninconclusive = 0
-    # model: prime fields only
-    midx = [i for i, c in enumerate(cases) if isinstance(c.F, Fp) and c.op in MODEL_OP and not c.meta.get("nomodel")]
+    # model: prime fields only.  sqrfree / CZfactor: Model.sqrfree follows the code without p-th-root branch, Model2.sqrfree_rep the
+    # repaired code (frag/C09.fix-6); which one is tied to the implementation is decided from the current source
+    mop = dict(MODEL_OP)
+    if chk.cov["source_facts"].get("sqrfree_has_pth_root_branch"):
+        for k in mop:
+            mop[k] = {"sqrfree": "sqrfree2", "cz": "cz2"}.get(mop[k], mop[k])
+    chk.cov["model_of_sqrfree"] = "Model2.sqrfree_rep (repaired)" if mop["sqrfree"] == "sqrfree2" else "Model.sqrfree (no p-th-root branch)"
+    midx = [i for i, c in enumerate(cases) if type(c.F) is Fp and c.op in MODEL_OP and not c.meta.get("nomodel")
+            and not iout[i].startswith(("TIMEOUT", "SKIPPED"))]
     big = [i for i in midx if cases[i].F.p > 1000]       # the extracted model runs on unary/binary inductives: sample the big field
     if len(big) > 400:
         drop = set(big[400:])
         midx = [i for i in midx if i not in drop]
     mout = {}
     if drv:
-        rc, lines, merr = run_parallel(drv, [cases[i].line(MODEL_OP[cases[i].op]) for i in midx], timeout=1500)
-        if rc != 0 or len(lines) != len(midx):
+        rc, lines, merr = run_parallel(drv, [cases[i].line(mop[cases[i].op]) for i in midx], timeout=3000)
+        if rc == 124:
+            chk.cov["inconclusive_tooling_timeouts"].append("the extracted model did not answer %d cases within 3000 s" % len(midx))
+        elif rc != 0 or len(lines) != len(midx):
             chk.broke("model driver failed (rc=%s, %d/%d lines)" % (rc, len(lines), len(midx)), merr)
         else:
             mout = dict(zip(midx, lines))
+    phase("model")
     # 4. comparison
     ncorr = 0
     dist = {}
@@ -926,9 +1416,10 @@ def main(tier, replay=None):
         chk.count((c.op, c.F.name, tuple(c.args), tuple(c.stream[:8])), nontrivial=nontrivial)
         if i % 211 == 0:
             chk.sample({"case": c.describe(False), "impl": iout[i][:300]})
-        if payload.startswith("SKIPPED"):
+        if payload.startswith(("SKIPPED", "TIMEOUT")):
+            ninconclusive += 1
             continue
-        v = verdict(c, payload) if not payload.startswith(("CRASH", "HANG")) else ("a result", "the call crashed or hung: " + payload)
+        v = verdict(c, payload) if not payload.startswith(("CRASH", "HANG")) else ("a result", "the call crashed or does not return: " + payload)
         if v is not None and v[0] == "INCONCLUSIVE":
             mp = parse_out(mout[i])[0] if i in mout else "EXHAUSTED"
             if not mp.startswith(("EXHAUSTED", "EXN")):
@@ -951,7 +1442,7 @@ def main(tier, replay=None):
             if parse_out(mout[i]) != (payload, used) and not (payload == "EXHAUSTED" and parse_out(mout[i])[0] == "EXHAUSTED"):
                 chk.broke("correspondence model/implementation differs on `%s`: model=%s impl=%s" % (c.line()[:300], mout[i][:300], iout[i][:300]))
         # the extracted verified checkers re-decide what the implementation returned (prime fields, small sizes)
-        if isinstance(c.F, Fp) and not payload.startswith("EXHAUSTED"):
+        if type(c.F) is Fp and not payload.startswith("EXHAUSTED"):
             if b in ("cz", "ddf", "split"):
                 L, E = parse_list(payload)
                 for f in L or []:
@@ -963,14 +1454,17 @@ def main(tier, replay=None):
                 verified_queue.append((i, "irrb %s - %s" % (c.F.name, payload), "1"))
             elif b == "order" and c.F.q ** (len(ppar(c.args[1])) - 1) <= 3000:
                 verified_queue.append((i, "border %s - %s %s" % (c.F.name, c.args[0], c.args[1]), payload))
+    phase("oracle")
     nver = 0
     if drv and verified_queue:
         seen = {}
         for i, l, e in verified_queue:
             seen.setdefault(l, (i, e))
         keys = sorted(seen)
-        rc, lines, merr = run_parallel(drv, keys, timeout=1500)
-        if rc != 0 or len(lines) != len(keys):
+        rc, lines, merr = run_parallel(drv, keys, timeout=3000)
+        if rc == 124:
+            chk.cov["inconclusive_tooling_timeouts"].append("the extracted verified checkers did not answer within 3000 s")
+        elif rc != 0 or len(lines) != len(keys):
             chk.broke("verified checker run failed (rc=%s, %d/%d lines)" % (rc, len(lines), len(keys)), merr)
         else:
             for k, l in zip(keys, lines):
@@ -979,6 +1473,7 @@ def main(tier, replay=None):
                 if parse_out(l)[0] != e:
                     chk.broke("verified checker (extracted irreducible_b / brute_order) disagrees with the accepted answer on `%s`: checker=%s accepted=%s (case `%s`)"
                               % (k, l, e, cases[i].line()[:200]))
+    phase("verified checkers")
     if os.environ.get("C09_DEBUG"):
         import collections
         cnt = collections.Counter((f["site"], f["klass"], f["case"]["field"], f["detail"]) for f in chk.failing)
@@ -1002,7 +1497,16 @@ def main(tier, replay=None):
     chk.cov["inconclusive_stream_exhausted"] = ninconclusive
     chk.cov["verified_checker_decisions"] = nver
     chk.cov["fields"] = [F.name for F in fields + gfq]
+    chk.cov["phase_seconds"] = PH
     chk.cov["call_forms"] = sorted(set(c.op for c in cases))
+    cf = {}
+    for c in cases:
+        t = "Modular<int32_t>" if type(c.F) is Fp else ("GFqDom<int64_t>" if isinstance(c.F, (Fq, FpG)) else
+                                                        {"m64": "Modular<int64_t>", "mu64": "Modular<uint64_t,__uint128_t>", "mI": "Modular<Integer>", "md": "Modular<double>"}[c.F.tag])
+        cf.setdefault(c.op, {})
+        cf[c.op][t] = cf[c.op].get(t, 0) + 1
+    chk.cov["call_form_counts"] = cf
+    chk.cov["boundary_fields"] = ["%d^%d: %s" % (q, k, lab) for q, k, lab in bnd]
     chk.cov["distribution"] = dist
     chk.cov["input_classes"] = {}
     for c in cases:
@@ -1011,38 +1515,115 @@ def main(tier, replay=None):
     return chk.finish()
 
 
-def run_isolated(himpl, cases, tmo=90):
-    """run the cases in one process; cases flagged `isolate` get a process of their own; when a process dies (a crash
-    inside the library) or does not answer within `tmo` seconds (a loop that draws no random value), record CRASH / HANG
-    for the case it stopped on and continue with the rest (at most 4 such restarts, then the rest is SKIPPED)"""
+def run_proc(binary, text, wall, cpu):
+    """one process with a CPU-time limit (load independent) and a generous wall-clock limit.
+    returns (status, lines): status 'ok', 'cpu' (killed by the CPU limit: a loop), 'wall' (tooling time-out), 'rc=<n>' (died)"""
+    import subprocess, resource, signal
+
+    def lim():
+        resource.setrlimit(resource.RLIMIT_CPU, (cpu, cpu + 5))
+    p = subprocess.Popen([binary], stdin=subprocess.PIPE, stdout=subprocess.PIPE, stderr=subprocess.DEVNULL,
+                         universal_newlines=True, preexec_fn=lim)
+    try:
+        o, _ = p.communicate(text, timeout=wall)
+    except subprocess.TimeoutExpired as ex:
+        p.kill()
+        try:
+            o, _ = p.communicate(timeout=30)
+        except Exception:
+            o = ex.stdout or ""
+            if isinstance(o, bytes):
+                o = o.decode("utf-8", "replace")
+        return "wall", (o or "").splitlines()
+    rc = p.returncode
+    if rc == 0:
+        return "ok", o.splitlines()
+    if rc in (-signal.SIGXCPU, -signal.SIGKILL):
+        return "cpu", o.splitlines()
+    return "rc=%s" % rc, o.splitlines()
+
+
+def run_isolated(himpl, cases, wall=900, cpu=90):
+    """run the cases in one process; cases flagged `isolate` get a process of their own.  When the process dies (a crash inside
+    the library) or is stopped by its CPU-time limit (a loop that draws no random value; CPU time does not depend on the load
+    of the machine), CRASH / HANG is recorded for the case it stopped on and the rest is run in a new process (at most 4 such
+    restarts, then the rest is SKIPPED).  A wall-clock time-out is a time-out of the tooling: the unanswered cases are run once
+    more, then recorded as TIMEOUT = inconclusive.  Returns (output lines, number of inconclusive cases)."""
     out = [None] * len(cases)
-    err_all = ""
-    rc = 0
+    ninc = 0
     for i, c in enumerate(cases):
         if c.meta.get("isolate"):
-            r, lines, err = vf.run_lines(himpl, c.line() + "\n", timeout=tmo)
-            out[i] = lines[0] if lines else ("HANG" if r == 124 else "CRASH rc=%s" % r)
+            st, lines = run_proc(himpl, c.line() + "\n", wall, cpu)
+            lines = [l for l in lines if re.search(r"#\d+\s*$", l)]
+            out[i] = lines[0] if lines else ("HANG (CPU-time limit of %d s)" % cpu if st == "cpu" else
+                                             "TIMEOUT" if st == "wall" else "CRASH %s" % st)
     rest = [i for i in range(len(cases)) if out[i] is None]
-    stops = 0
+    stops = walls = 0
     while rest:
-        rc, lines, err = vf.run_lines(himpl, "".join(cases[i].line() + "\n" for i in rest), timeout=tmo)
+        st, lines = run_proc(himpl, "".join(cases[i].line() + "\n" for i in rest), wall, cpu)
         lines = [l for l in lines if re.search(r"#\d+\s*$", l)]          # drop a partial last line
         for i, l in zip(rest, lines):
             out[i] = l
         if len(lines) >= len(rest):
             break
-        err_all += err[-500:]
-        out[rest[len(lines)]] = "HANG (no answer within %d s)" % tmo if rc == 124 else "CRASH rc=%s" % rc
+        if st == "wall":
+            walls += 1
+            rest = rest[len(lines):]
+            if walls >= 2:
+                for i in rest:
+                    out[i] = "TIMEOUT"
+                break
+            continue
+        out[rest[len(lines)]] = "HANG (CPU-time limit of %d s)" % cpu if st == "cpu" else "CRASH %s" % st
         rest = rest[len(lines) + 1:]
         stops += 1
         if stops >= 4:
             for i in rest:
                 out[i] = "SKIPPED"
             break
-    return rc, out, err_all
+    ninc = sum(1 for l in out if l == "TIMEOUT")
+    return out, ninc
 
 
-def run_parallel(binary, lines, timeout=1500, k=None):
+def field_of_name(name):
+    """field object for a case read back from a replay file"""
+    t = name.split(":")
+    try:
+        if len(t) == 1:
+            return Fp(int(t[0]))
+        if t[0] == "q" and len(t) == 3 and t[2] == "1":
+            return FpG(int(t[1]))
+        if t[0] == "q" and len(t) == 4:
+            return Fq(int(t[1]), int(t[2]), int(t[3]))
+        if t[0] in ("m64", "mu64", "mI", "md"):
+            return FpT(int(t[1]), t[0])
+    except ValueError:
+        pass
+    return None
+
+
+def source_facts():
+    """facts read from /repo's current source on every run (recorded in the evidence; the harness needs -fpermissive exactly
+    because of the first one): member functions of Poly1FactorDom that call a member of the dependent base Poly1Dom without
+    `this->` (they do not compile under the standard two-phase lookup, hence cannot be instantiated by a conforming client)"""
+    facts = {}
+    try:
+        root = vf.REPO
+        txt = open(os.path.join(root, "src/library/poly1/givpoly1proot.inl")).read()
+        m = re.search(r"::order\(\s*const Rep& P, const Rep& F\)\s*const\s*\{(.*?)\n    \}", txt, flags=re.S)
+        facts["order_calls_unqualified_mod"] = bool(m and re.search(r"[^>\w]mod\(A,P,F\)", m.group(1)) and "this->mod(A,P,F)" not in m.group(1))
+        txt2 = open(os.path.join(root, "src/library/poly1/givpoly1factor.inl")).read()
+        facts["factor_single_uses_Rep_copy"] = "W.copy(" in txt2
+        txt3 = open(os.path.join(root, "src/library/poly1/givpoly1sqrfree.inl")).read()
+        txt3 = re.sub(r"//[^\n]*", "", txt3)
+        # the repaired square-free decomposition (frag/C09.fix-6) takes p-th roots: it asks the domain for its characteristic
+        facts["sqrfree_has_pth_root_branch"] = "characteristic(" in txt3
+    except (OSError, IOError) as e:
+        facts["error"] = str(e)
+    return facts
+
+
+def run_parallel(binary, lines, timeout=3000, k=None):
     """run the line protocol on k processes (round-robin split), results back in order"""
     import subprocess
     k = k or max(1, min(8, vf.NCPU // 2, len(lines) // 50 + 1))
